@@ -38,10 +38,26 @@ pub(crate) struct LiveServe {
     pub(crate) buf: Vec<u8>,
 }
 
+/// bind(127.0.0.1:0) with real-time retries: when other checks running on the machine have
+/// momentarily used up the ephemeral ports (TIME_WAIT), wait instead of failing the case.
+fn bind_loopback_retry() -> std::net::TcpListener {
+    let t0 = std::time::Instant::now();
+    loop {
+        match std::net::TcpListener::bind("127.0.0.1:0") {
+            Ok(l) => return l,
+            Err(e) if t0.elapsed() < std::time::Duration::from_secs(120) => {
+                let _ = e;
+                std::thread::sleep(std::time::Duration::from_millis(250));
+            }
+            Err(e) => panic!("bind loopback: {e}"),
+        }
+    }
+}
+
 impl LiveServe {
     /// `policy`: 0 pre, 1 post, 2 both, 3 local, 4 all
     pub(crate) async fn start(global: GlobalHandle, tables: TableHandle, policy: u8) -> LiveServe {
-        let listener = tokio::net::TcpListener::bind("127.0.0.1:0").await.expect("bind loopback");
+        let listener = { let l = bind_loopback_retry(); l.set_nonblocking(true).expect("nonblocking"); tokio::net::TcpListener::from_std(l).expect("tokio listener") };
         let addr = listener.local_addr().unwrap();
         let (client, server) = tokio::join!(TcpStream::connect(addr), listener.accept());
         let cancel = CancellationToken::new();
